@@ -21,6 +21,7 @@
 -/
 import Proofs.GenKernels
 import Proofs.GenConv
+import Proofs.GenFma
 
 namespace Decimal.CGenK
 
@@ -76,6 +77,33 @@ theorem uquo_eq (z x y : WDec) (t : Thr) (hp : z.prec < 4294967296) (hx : I32 x.
 /-- the decimal shift of `dnorm` is at most 19 for every mantissa with words below the base -/
 theorem dnorm_shift_le (m m' : List Nat) (s : Nat) (hw : L0.WF m) (h : W.dnorm m = .ok (m', s)) : s ≤ 19 :=
   GenKernels.dnorm_shift_le m m' s hw h
+
+/-! ### `FMA` (regenerated, including the scratch Decimal that is the receiver or a fresh one) -/
+
+/-- **fma_eq.** `FMA` as regenerated from decimal.go IS the model's `fma` (operands `x`, `y` distinct from the
+    receiver; `su` = "u is the receiver", in which case the scratch Decimal is fresh; the mantissa-buffer test
+    `alias(z.mant, u.mant)` can only hold together with it): the precision prologue over the three operands, the
+    zero-addend shortcut into `Mul`, which object `z0` is and what it inherits, the product sign, the scratch
+    precision MaxPrec around `umul` and its restoration, the NaN panic with the receiver left a valid zero, the
+    infinite / zero product, and the operands of the final `Add`. `pre` is the state at the first opaque call, the
+    return or the panic; `g` the state at the final `Add`, given the form and accuracy `umul` left. -/
+theorem fma_eq (z x y u : Dec) (su a : Bool) (ha : (su || a) = su) (hu : su = true → u = z) :
+    let pre := Gen.Facts.FMAPre su a x.form.toNat x.neg x.prec y.form.toNat y.neg y.prec u.form.toNat u.prec
+      z.prec z.mode.toNat z.neg z.acc z.form.toNat
+    let z1 : Dec := { z with prec := pre.zPrec, neg := pre.zNeg, acc := pre.zAcc, form := GenFacts.formOf pre.zForm }
+    let z0 : Dec := GenFma.scratch pre.fresh z1 pre.z0_prec pre.z0_mode pre.z0_neg pre.z0_acc pre.z0_form
+    let u' : Dec := if su then z1 else u
+    let fin := fun (s : Dec) => if su then Decimal.add z1 s u' false true else Decimal.add s s u' true false
+    Decimal.fma z x y u false false su =
+      if pre.tail = 1 then Decimal.mul z1 x y
+      else if pre.tail = 0 then (z1, GenFacts.outcomeOf pre.outcome)
+      else if pre.tail = 2 then fin z0
+      else
+        let K := Decimal.umul z0 x y
+        let g := Gen.Facts.FMA su a x.form.toNat x.neg x.prec y.form.toNat y.neg y.prec u.form.toNat u.prec
+          K.form.toNat K.acc z.prec z.mode.toNat z.neg z.acc z.form.toNat
+        fin { K with prec := if g.fresh then g.z0_prec else g.zPrec } :=
+  GenFma.fma_eq z x y u su a ha hu
 
 /-! ### the saturating conversions (regenerated decision logic of `Int64`, `Uint64`, `Abs`) -/
 
@@ -144,6 +172,7 @@ private def same (a b : Except String WDec) : Bool := toString (repr a) == toStr
 #print axioms int64_eq
 #print axioms uint64_eq
 #print axioms abs_eq
+#print axioms fma_eq
 #print axioms setInt64_args
 #print axioms setUint64_args
 #print axioms newDecimal_args
